@@ -29,6 +29,7 @@ import (
 //   - (scenario option "fullduplex") a server in full-duplex mode, where that rule is off;
 //   - (scenario option "srvdl") a request context that already has a far deadline of the server's own;
 //   - (scenario option "noflush") a ResponseWriter without Flush: the reply leaves when the handler returns;
+//   - (scenario option "coalesce") reads of the response body that return everything that has arrived so far;
 //   - cancellation closing the connection; the server noticing a closed
 //     connection through failing body reads, and through its background read
 //     (which cancels the request context) only once the body has hit EOF;
@@ -52,10 +53,13 @@ type memTransport struct {
 	// noFlush: the handlers see a ResponseWriter that has neither Flush nor Unwrap (a middleware's wrapper,
 	// http.TimeoutHandler's writer): nothing leaves the server before the handler has returned
 	noFlush bool
+	// coalesce: a Read of the response body returns everything that has arrived so far, across the server's
+	// write boundaries (a client that reads a little after the server wrote; TCP does not keep boundaries)
+	coalesce bool
 }
 
-func newMemTransport(h http.Handler, giveUp, fullDuplex, srvDeadline, noFlush bool) http.RoundTripper {
-	return &memTransport{h: h, giveUp: giveUp, fullDuplex: fullDuplex, srvDeadline: srvDeadline, noFlush: noFlush}
+func newMemTransport(h http.Handler, giveUp, fullDuplex, srvDeadline, noFlush, coalesce bool) http.RoundTripper {
+	return &memTransport{h: h, giveUp: giveUp, fullDuplex: fullDuplex, srvDeadline: srvDeadline, noFlush: noFlush, coalesce: coalesce}
 }
 
 // plainWriter hides every optional interface of the writer it wraps.
@@ -397,6 +401,21 @@ func (b *memRespBody) Read(p []byte) (int, error) {
 				return 0, io.EOF
 			}
 			b.left = data.Val
+			if b.c.t.coalesce {
+				for {
+					more := mc.RecvCase(b.c.respCh)
+					if mc.Select(true, more) != 0 {
+						break // nothing further has arrived yet
+					}
+					if !more.Ok {
+						// the end of the body has arrived as well: the next Read reports it
+						b.eof = true
+						b.c.finish()
+						break
+					}
+					b.left = append(append([]byte(nil), b.left...), more.Val...)
+				}
+			}
 		default:
 			b.c.finish()
 			if err := b.ctx.Err(); err != nil {
